@@ -28,6 +28,12 @@
 (* then a well-formed stream on the same shard) and Concurrent records     *)
 (* (workers open and close small ids while other opens force growth):      *)
 (*   ends / followup / printer / balanced as above                         *)
+(* Overlap records (several well-formed streams at once, distinct server    *)
+(* shard ids congruent modulo both shard counts, then two streams on one   *)
+(* server shard id): followup / printer, corrupt (the observer's active    *)
+(* set is not the set of server shard ids with an open stream), tracker    *)
+(* (the stream tracker's forwarder entries are not those of the open       *)
+(* streams)                                                                *)
 (* Conformance with the design at W = 32 (StreamPred), not verdicts:       *)
 (*   predleak  the design of the pinned code predicts a leaked lock        *)
 (*   notcur / notfixed  the observation differs from what the design of    *)
@@ -77,6 +83,15 @@ OnServePanic(e) ==
   /\ UNCHANGED <<inp, res>>
   /\ Flag(Bad(e.id, e.failing = "rejected", "ends") \cup Bad(e.id, e.follow = "served", "followup")
           \cup Bad(e.id, e.printer = "ok", "printer") \cup Bad(e.id, e.printer # "ok" \/ e.after = <<>>, "balanced"))
+\* Overlap: after each step the observer shows exactly the server shard ids with an open stream (also when a second stream on
+\* one of them came and went: StreamObs!ServedShown), and in the forwarder modes the tracker has exactly one entry per server
+\* open stream, naming its server shard id (StreamObs!TrackedWhileServing, TrackerEmptied).
+OnOverlap(e) ==
+  /\ UNCHANGED <<inp, res>>
+  /\ Flag(Bad(e.id, e.notserved = 0, "followup") \cup
+          UNION {Bad(e.id, e.steps[k].printer = "ok", "printer") \cup
+                 Bad(e.id, e.steps[k].printer # "ok" \/ e.steps[k].active = e.steps[k].open, "corrupt") \cup
+                 Bad(e.id, ~e.forwarder \/ e.baseline # 0 \/ e.steps[k].tracked = e.steps[k].streams, "tracker") : k \in 1..Len(e.steps)})
 OnConcurrent(e) ==
   /\ UNCHANGED <<inp, res>>
   /\ Flag(Bad(e.id, e.notserved = 0, "followup") \cup Bad(e.id, e.printer = "ok", "printer")
@@ -88,6 +103,7 @@ Next == /\ i <= Len(Trace) /\ i' = i + 1
              [] e.ev = "FollowUp" -> OnFollowUp(e)
              [] e.ev = "ServePanic" -> OnServePanic(e)
              [] e.ev = "Concurrent" -> OnConcurrent(e)
+             [] e.ev = "Overlap" -> OnOverlap(e)
              [] OTHER -> UNCHANGED <<inp, res>>
 Spec == Init /\ [][Next]_vars
 \* opens without a result: the process died while serving them
